@@ -11,7 +11,9 @@ fn refv(r: sourcemap::Result<Option<SourceMapRef>>) -> Value {
         Ok(None) => json!([]),
         Ok(Some(SourceMapRef::Ref(u))) => json!([{"legacy": false, "url": cps(&u)}]),
         Ok(Some(SourceMapRef::LegacyRef(u))) => json!([{"legacy": true, "url": cps(&u)}]),
-        Err(_) => json!("err"),
+        // an error is logged in the same SHAPE as an answer (a one-element list holding a record), so that the judge
+        // compares it unequal instead of stumbling over a string where it expects a sequence
+        Err(_) => json!([{"legacy": false, "url": [], "err": true}]),
     }
 }
 fn outcome(r: sourcemap::Result<DecodedMap>) -> Value {
